@@ -1,6 +1,6 @@
 (* C09 -- corollaries for the marker reader: chunking irrelevance, save_marker. *)
 From Coq Require Import List ZArith Lia Arith Bool.
-From LJT Require Import model.Suspend model.SuspendMarker proofs.SuspendProofs proofs.SuspendWriteProofs
+From LJT Require Import model.SuspendCore model.SuspendMarker proofs.SuspendProofs proofs.SuspendWriteProofs
   proofs.SuspendMarkerProofs.
 Import ListNotations.
 
